@@ -15,28 +15,39 @@ CLAUSES = {
 }
 
 
-def run_e2(ctx, rep, select=lambda f: True, cfg="Q", floor=0, label="E2"):
+def run_e2(ctx, rep, select=lambda f: True, cfg=None, floor=0, label="E2"):
+    """quick: configuration Q; thorough: every configuration of the tier (a site already decided in an earlier
+    configuration is re-analysed and reported again only if it is no longer discharged)."""
     for k, v in CLAUSES.items():
         rep.rule(k, v)
     reviewed = load_tsv("ranged")
-    prog = ctx.prog(cfg)
-    A = ctx.auto(cfg)
-    n = 0
-    nf = 0
-    for f in sorted(prog.fns.values(), key=lambda f: f.key):
-        if f.crate != "jiff" or f.file == "src/util/rangeint.rs" or not select(f):
-            continue
-        nf += 1
-        an, obl = e2.analyse(f, A)
-        ords = {}
-        for (kind, bi, ok, detail, ln, tag) in obl:
-            n += 1
-            ords[(kind, tag)] = ords.get((kind, tag), 0) + 1
-            key = norm_key("%s | %s | %s#%d" % (f.key, kind, tag, ords[(kind, tag)]))
-            loc = "%s:%s" % (f.file, ln)
-            if ok:
-                rep.ok(kind, key, how=detail[:120], loc=loc, nontrivial=kind not in ("O-WRAP-PRIM",))
-            else:
-                rep.classify(kind, key, reviewed, loc=loc, detail=detail[:300])
-    rep.analysed.setdefault(cfg, {}).update({label + "_functions": nf, label + "_obligations": n})
-    rep.floor(label + " obligations", n, floor)
+    seen = {}
+    best = 0
+    for cfg in ([cfg] if cfg else ctx.configs):
+        prog = ctx.prog(cfg)
+        A = ctx.auto(cfg)
+        n = 0
+        nf = 0
+        for f in sorted(prog.fns.values(), key=lambda f: f.key):
+            if f.crate != "jiff" or f.file == "src/util/rangeint.rs" or not select(f):
+                continue
+            nf += 1
+            an, obl = e2.analyse(f, A)
+            ords = {}
+            for (kind, bi, ok, detail, ln, tag) in obl:
+                n += 1
+                ords[(kind, tag)] = ords.get((kind, tag), 0) + 1
+                key = norm_key("%s | %s | %s#%d" % (f.key, kind, tag, ords[(kind, tag)]))
+                loc = "%s:%s" % (f.file, ln)
+                if seen.get(key) == "classified":
+                    continue
+                if ok:
+                    if key not in seen:
+                        rep.ok(kind, key, how=detail[:120], loc=loc, nontrivial=kind not in ("O-WRAP-PRIM",))
+                        seen[key] = "auto"
+                else:
+                    seen[key] = "classified"
+                    rep.classify(kind, key, reviewed, loc=loc, detail=("config %s | " % cfg) + detail[:300])
+        rep.analysed.setdefault(cfg, {}).update({label + "_functions": nf, label + "_obligations": n})
+        best = max(best, n)
+    rep.floor(label + " obligations", best, floor)
